@@ -45,11 +45,17 @@ def gen_docs(rnd, n):
         if r < 0.65:
             return [mk(depth - 1) for _ in range(rnd.randint(1, 3))]
         return {k: mk(depth - 1) for k in rnd.sample(['a', 'b', 'c', 'key'], rnd.randint(1, 3))}
-    docs = []
+    def mk2(depth):
+        r = rnd.random()
+        if depth == 0 or r < 0.3:
+            return rnd.choice(vals + [2.5, "", 0])
+        if r < 0.65:
+            return [mk2(depth - 1) for _ in range(rnd.randint(0, 3))]
+        return {k: mk2(depth - 1) for k in rnd.sample(['a', 'b', 'c', 'key'], rnd.randint(0, 3))}
+    # every falsy / empty value at top level and nested (the formats agree on them), scalars at top level
+    docs = [{}, [], 0, False, "", 1, "x", True, 2.5, {"a": {}}, {"a": []}, [[]], [{}], {"a": ""}, [0, False, ""], {"a": 0, "b": False}]
     while len(docs) < n:
-        d = mk(3)
-        if isinstance(d, (list, dict)):
-            docs.append(d)
+        docs.append(mk(3) if rnd.random() < 0.5 else mk2(3))
     return docs
 
 
@@ -99,7 +105,7 @@ def _job(job):
 
 def witnesses(func_result, ob, repo_root, tier):
     rnd = random.Random(1)
-    for d in gen_docs(rnd, 6):
+    for d in gen_docs(rnd, 24):
         f = [x for x in _job((d, [1], gt.OPTION_COMBOS[0])) if 'plist' not in x['class']]
         if f:
             return f[:1]
@@ -120,8 +126,8 @@ def bounded(tier, seed, repo_root):
     jobs = [(d, rnd.choice(docs), gt.OPTION_COMBOS[i % 9]) for i, d in enumerate(docs)]
     fails = [f for fs in pmap(_job, jobs, repo_root, chunksize=1) for f in fs]
     return [{
-        'name': 'C09.formats', 'bound': f"{len(docs)} generated documents in the common domain (string keys; string/int/bool values; "
-        f"non-empty lists and mappings, depth <= 3) x 16 ordered pairs of json/json5/yaml/plist, options cycling through the 9",
+        'name': 'C09.formats', 'bound': f"{len(docs)} documents in the common domain (string keys; string/int/float/bool values; lists and mappings incl. "
+        f"empty ones, falsy scalars and scalars at top level, depth <= 3) x 16 ordered pairs of json/json5/yaml/plist, options cycling through the 9",
         'evaluations': len(jobs) * 16, 'distinct_nontrivial': len({json.dumps(d, sort_keys=True) for d in docs}), 'exhaustive': False,
         'rule': 'document written with each library dumper -> Filetype.build_tree for each format: equal trees, diff cost 0 in both '
                 'directions, CLI exit 0, equal cost against a third document',
